@@ -1,6 +1,9 @@
 use std::{marker::PhantomData, sync::Arc};
 
+#[cfg(not(feature = "verif"))]
 use parking_lot::{RwLock, RwLockReadGuard};
+#[cfg(feature = "verif")]
+use rawdb::verif_sync::{RwLock, RwLockReadGuard};
 use rawdb::{Reader, Region};
 
 use crate::{AnyStoredVec, Pages, VecIndex, VecValue, unlikely};
